@@ -111,7 +111,10 @@ class G:
             if h == t:
                 t = t + 's'
             e2 = env + [(h, 'I', 'prd'), (t, 'L', 'prd')]
-            return f"({self.gen('L', env, d - 1, pure)}.case[i64] {{ Nil => {self.gen('I', env, d - 1, eff)}, Cons({h}, {t}) => {self.gen('I', e2, d - 1, eff)} }})"
+            cl = [f"Nil => {self.gen('I', env, d - 1, eff)}", f"Cons({h}, {t}) => {self.gen('I', e2, d - 1, eff)}"]
+            if r.random() < 0.4:
+                cl.reverse()          # clauses need not be written in declaration order
+            return f"({self.gen('L', env, d - 1, pure)}.case[i64] {{ {cl[0]}, {cl[1]} }})"
         if c == 'caseP':
             h, t = self.name(), self.name()
             if h == t:
@@ -119,7 +122,10 @@ class G:
             e2 = env + [(h, 'I', 'prd'), (t, 'I', 'prd')]
             return f"({self.gen('P', env, d - 1, pure)}.case[i64, i64] {{ Tup({h}, {t}) => {self.gen('I', e2, d - 1, eff)} }})"
         if c == 'caseE':
-            return f"({self.gen('E', env, d - 1, pure)}.case {{ E1 => {self.gen('I', env, d - 1, eff)}, E2 => {self.gen('I', env, d - 1, eff)}, E3 => {self.gen('I', env, d - 1, eff)} }})"
+            cl = [f"E{i} => {self.gen('I', env, d - 1, eff)}" for i in (1, 2, 3)]
+            if r.random() < 0.5:
+                r.shuffle(cl)
+            return f"({self.gen('E', env, d - 1, pure)}.case {{ {', '.join(cl)} }})"
         if c == 'apply':
             return f"({self.gen('F', env, d - 1, pure)}.apply[i64, i64]({self.gen('I', env, d - 1, pure)}))"
         if c == 'head':
@@ -180,8 +186,11 @@ class G:
             n, n2 = self.name(), self.name()
             if n == n2:
                 n2 = n2 + 's'
-            return (f"new {{ m1({n}) => {self.gen('I', env + [(n, 'I', 'prd')], d - 1, eff)}, m2 => {self.gen('I', env, d - 1, eff)}, "
-                    f"m3({n}, {n2}) => {self.gen('I', env + [(n, 'I', 'prd'), (n2, 'I', 'prd')], d - 1, eff)} }}")
+            cl = [f"m1({n}) => {self.gen('I', env + [(n, 'I', 'prd')], d - 1, eff)}", f"m2 => {self.gen('I', env, d - 1, eff)}",
+                  f"m3({n}, {n2}) => {self.gen('I', env + [(n, 'I', 'prd'), (n2, 'I', 'prd')], d - 1, eff)}"]
+            if r.random() < 0.5:
+                r.shuffle(cl)
+            return "new { " + ", ".join(cl) + " }"
         return self.leaf(ty, env)
 
     def leaf(self, ty, env):
